@@ -1395,6 +1395,9 @@ func (e *Entry) Find(name string) *Entry {
 					}
 				}
 				e = e.RPC.Output
+			default:
+				// An rpc or action has no children other than input and output.
+				return nil
 			}
 		default:
 			_, part = getPrefix(part)
